@@ -86,7 +86,7 @@ def has_quantifier(e) -> bool:
 
 
 class ExecBase:
-    FEAS_TIMEOUT_MS = 3000
+    FEAS_TIMEOUT_MS = 400
 
     def __init__(self, registry: Dict[str, Contract], max_paths: int = 6000, inline_depth: int = 6):
         self.registry = registry
